@@ -80,8 +80,10 @@ class Project:
                 sc.cyclic = True
                 self.comps["CycSelf"] = sc
         # same-named components in different directories
-        if len(self.dirs) >= 2 and rng.random() < 0.5:
-            self.add_same_named(rng.choice(("shadow", "chain", "chain")))
+        # (every fourth project is steered to the shadowing shape with the own directory imported again, every fourth to a chain)
+        self.force_reimport = (k % 4 == 0)
+        if len(self.dirs) >= 2 and (k % 4 in (0, 1) or rng.random() < 0.5):
+            self.add_same_named("shadow" if k % 4 == 0 else "chain" if k % 4 == 1 else rng.choice(("shadow", "chain", "chain")))
         self.compute_candidates()
         if self.has_dir_cycle():
             self.features.add("directory-cycle")
@@ -108,7 +110,7 @@ class Project:
             s = Comp(t.name, d1, rng.choice([q for q in QT_BASES if q != t.root]), key="%s@%s" % (t.name, d1))
             user = Comp(fresh[0], d1, t.name)
             self.require(user, t.dir)
-            if rng.random() < 0.5:
+            if rng.random() < 0.5 or self.force_reimport:
                 # ... and imports its own directory explicitly AFTER the other one (`import "../lib"; import "."`)
                 user.imports.append((d1, self.spelling(d1, d1)))
                 self.features.add("same-name:own-directory-reimported-last")
